@@ -634,7 +634,7 @@ pub fn run(args: &Args, prop: &str) {
         rep.finish();
         return;
     }
-    let n = if prop == "C01" { args.budget(320, 12_000) } else { args.budget(384, 16_000) };
+    let n = if prop == "C01" { args.budget(320, 3_200) } else { args.budget(384, 3_840) };
     for k in 0..n {
         one(&mut rep, prop, args.case_seed(k), args.index(k));
     }
